@@ -503,9 +503,11 @@ class Basex(Adapter):
         return buf.getvalue()
 
     def junk_file(self, key):
-        k = max(1, key[0] // 2)
+        # one row, wider than any basis: fails the shape check as "best" file and does
+        # not fit as the block to extend (a wrong-shape file that DOES fit is the
+        # subject of the directed probe in C08.py)
         buf = io.BytesIO()
-        np.save(buf, np.array([np.eye(k), np.eye(k)]))
+        np.save(buf, np.zeros((2, 1, 1000)))
         return buf.getvalue()
 
     def coq_content(self, key):
@@ -714,10 +716,7 @@ class Linbasex(Adapter):
     name = 'linbasex'
     coq_module = 'CacheLinbasex'
     file_prefix = 'linbasex_basis_'
-    # (legendre_orders=[0] alone is not generated: P0 = 1 makes the basis independent of
-    #  the angle VALUES, so the angle-key collision is harmless there, while the model
-    #  conservatively counts it as a hazard)
-    ORDERS = [[0, 2], [0, 2], [0, 1, 2], [1, 2], [12], [2], [0, 2, 4]]
+    ORDERS = [[0, 2], [0, 2], [0, 1, 2], [1, 2], [12], [0], [0, 2, 4]]
     # angles in units of pi/400; a = 0 or a % 4 != 0 (see CacheLinbasex.v)
     ANGLES = [[0, 202], [0, 202], [0, 201], [0, 102], [22, 2], [202], [0, 182, 362]]
 
@@ -731,10 +730,13 @@ class Linbasex(Adapter):
         m._basis = m._los = m._pas = m._radial_step = m._clip = None
 
     @staticmethod
-    def keystr(key):
+    def ang(a):
+        return a * np.pi / 400
+
+    def keystr(self, key):
         cols, orders, angles, step, clip = key
-        los = ''.join(map(str, orders))
-        pas = ''.join(str(a // 4) for a in angles)
+        los = '-'.join(map(str, orders))
+        pas = '-'.join(repr(float(self.ang(a))) for a in angles)
         return cols, los, pas, step, clip
 
     def fname(self, key):
@@ -826,8 +828,13 @@ class Linbasex(Adapter):
     def state(self):
         m = self.mod()
         has = m._los is not None
-        return dict(los=[[ord(ch) for ch in m._los]] if has else [],
-                    pas=[[ord(ch) for ch in m._pas]] if has else [],
+
+        def unangle(t):
+            a = float(t) * 400 / np.pi
+            assert abs(a - round(a)) < 1e-6, t
+            return int(round(a))
+        return dict(los=[[int(t) for t in m._los.split('-') if t != '']] if has else [],
+                    pas=[[unangle(t) for t in m._pas.split('-') if t != '']] if has else [],
                     stepclip=[int(m._radial_step), int(m._clip)] if has else [],
                     shape=list(m._basis.shape) if m._basis is not None else [],
                     gdir=basis_dir_global(self.env),
@@ -843,7 +850,7 @@ class Linbasex(Adapter):
 
 class Rbasex(Adapter):
     BLANK = dict(prm=[98], dst=98, ibs=False, bs_prm=[98], nbs=[98], has_tri_full=False, has_trf=False,
-                 tri_prm=[98], gdir=98, files=[])
+                 tri_prm=[98], mkey=98, gdir=98, files=[])
     name = 'rbasex'
     coq_module = 'CacheRbasex'
     file_prefix = 'rbasex_basis_'
@@ -883,6 +890,7 @@ class Rbasex(Adapter):
         m = self.mod()
         m._prm = m._weights = m._dst = m._bs_prm = m._bs = m._ibs = None
         m._trf = m._tri_full = m._tri_prm = m._tri = None
+        m._ibs_prm = m._mask_key = None
         self.reset_weights()
 
     def fname(self, key):
@@ -990,12 +998,6 @@ class Rbasex(Adapter):
         if c.get('kind') == 'getbs':
             return c
         if c['wid'] and self.WSHAPE[c['wid']] != self.SHAPES[c['shape']]:
-            c['wid'] = 0
-        # an invalid rmax together with weights makes the Distributions CONSTRUCTOR raise and
-        # leaves the previous object under the new key; what that object then does with an image
-        # of another shape is not modelled: random histories use weights=None there (the
-        # directed scenario keeps the same-shape case)
-        if self.RMAXS[c['rmax']] == 'foo':
             c['wid'] = 0
         if c['reg'] == 1 and (c['direction'] != 'inverse' or (self.eff_odd(c) and c['order'] > 1)):
             c['reg'] = 0
@@ -1131,15 +1133,17 @@ class Rbasex(Adapter):
                     has_tri_full=m._tri_full is not None, has_trf=m._trf is not None,
                     tri_prm=[{v if not isinstance(v, list) else tuple(v): k for k, v in self.REGS.items()}[
                         m._tri_prm[0]]] if m._tri_prm is not None else [],
+                    mkey=0 if m._mask_key is None else self.vid_of(
+                        np.logical_not(np.frombuffer(m._mask_key, dtype=bool)).tobytes()),
                     gdir=basis_dir_global(self.env), files=[list(x) for x in files])
 
     def coq_obs(self, code, agree, fresh_code, st):
         return ('{| o_code := %d; o_agree := %s; o_fresh_code := %d; o_prm := %s; o_dst := %d; o_ibs := %s; '
                 'o_bs_prm := %s; o_nbs := %s; o_has_tri_full := %s; o_has_trf := %s; o_tri_prm := %s; '
-                'o_gdir := %d; o_files := %s |}'
+                'o_mkey := %d; o_gdir := %d; o_files := %s |}'
                 % (code, cbool(agree), fresh_code, cnats(st['prm']), st['dst'], cbool(st['ibs']),
                    cnats(st['bs_prm']), cnats(st['nbs']), cbool(st['has_tri_full']), cbool(st['has_trf']),
-                   cnats(st['tri_prm']), st['gdir'], clist([cnats(x) for x in st['files']])))
+                   cnats(st['tri_prm']), st['mkey'], st['gdir'], clist([cnats(x) for x in st['files']])))
 
 
 ADAPTERS = {'daun': Daun, 'basex': Basex, 'dasch': Dasch, 'linbasex': Linbasex, 'rbasex': Rbasex}
